@@ -955,7 +955,7 @@ func TestVerif_C18(t *testing.T) {
 	// random stores
 	all := append(append([]c18Shape{}, basic...), variants...)
 	pres := append([]c18Pres{{true, "u2", "pw2"}, {true, "", "pw1"}, {true, "*", ""}}, c18Presentations...)
-	n := vN(40, 1500)
+	n := vN(40, 600)
 	for i := 0; i < n; i++ {
 		f := c18RandomStore(rng)
 		for j := 0; j < 25; j++ {
